@@ -138,6 +138,9 @@ type FuncSpec struct {
 	// SliceAlias: `v := x[:n]` makes v a window onto x: a call that writes through v (LocalOut) also writes x (`let x := GoX.setSliceTo x n v`),
 	// and an out-parameter argument `x[n:]` is written back with GoX.setSliceFrom.
 	SliceAlias bool
+	// StrSlices (default off): Lean namespace NS of string-slicing helpers; `s[:n]`, `s[n:]`, `s[n:m]` on STRINGS -> NS.sliceTo / NS.sliceFrom /
+	// NS.slice (only reached where the translator used to emit UNSUPPORTED_slice_expression)
+	StrSlices  string
 	TypeSwitch bool // `switch v := x.(type) { case T: .. }` -> match chain over the model's `(x).as_T : Option _` views (first matching case wins, as in Go)
 	// (C14) OutCallState: with LoopStyle "state", a call STATEMENT `f(v, ..)` whose callee is a LocalOut entry with Keep (f writes through
 	// its pointer argument v) counts as an assignment to v when the loop's state is collected: `for _, opt := range opts { opt(j) }`
@@ -867,6 +870,16 @@ func (t *tr) expr(e ast.Expr) string {
 				return "(GoX.sliceTo " + t.expr(x.X) + " " + t.expr(x.High) + ")"
 			case x.Low != nil && x.High == nil:
 				return "(GoX.sliceFrom " + t.expr(x.X) + " " + t.expr(x.Low) + ")"
+			}
+		}
+		if ns := t.spec.StrSlices; ns != "" && !x.Slice3 {
+			switch {
+			case x.Low == nil && x.High != nil:
+				return "(" + ns + ".sliceTo " + t.expr(x.X) + " " + t.expr(x.High) + ")"
+			case x.Low != nil && x.High == nil:
+				return "(" + ns + ".sliceFrom " + t.expr(x.X) + " " + t.expr(x.Low) + ")"
+			case x.Low != nil && x.High != nil:
+				return "(" + ns + ".slice " + t.expr(x.X) + " " + t.expr(x.Low) + " " + t.expr(x.High) + ")"
 			}
 		}
 		return t.bad("slice expression", x)
